@@ -497,7 +497,7 @@ func ruleORDERINDEP(w *World, r *Report) {
 	}
 	r.stat("orderindep_regions", len(regions))
 	r.floor("ORDERINDEP", "packet-type regions in readFile", len(regions), 5)
-	r.floor("ORDERINDEP", "branches inside packet handling", nBranches, 6)
+	r.floor("ORDERINDEP", "branches inside packet handling", nBranches, 3)
 }
 
 func phiName(p *ssa.Phi) string {
@@ -1552,7 +1552,16 @@ func elimCheck(w *World, r *Report, fn *ssa.Function) int {
 		}
 		switch f.Name() {
 		case "swapRows", "scaleRow", "addScaledRow":
-			ops = append(ops, op{c, f.Name(), matrixRoot(c.Call.Args[0]), c.Call.Args[1:]})
+			recv := matrixRoot(c.Call.Args[0])
+			if recv != m && recv != n {
+				// a pair type whose method does the same operation on both members in lockstep,
+				// built from m and n: one call stands for both operations
+				if x, y, ok := lockstepPair(c); ok && ((x == m && y == n) || (x == n && y == m)) {
+					ops = append(ops, op{c, f.Name(), m, c.Call.Args[1:]}, op{c, f.Name(), n, c.Call.Args[1:]})
+					continue
+				}
+			}
+			ops = append(ops, op{c, f.Name(), recv, c.Call.Args[1:]})
 		}
 	}
 	sameArgs := func(a, b []ssa.Value) bool {
@@ -2088,4 +2097,91 @@ func pivotFromSearch(w *World, fn *ssa.Function, m ssa.Value, swap *ssa.Call, co
 	rc := &rangeCtx{memo: map[ssa.Value]*ival{}, busy: map[ssa.Value]bool{}}
 	iv := rc.eval(c, swap.Block())
 	return iv != nil && iv.lo.Sign() >= 0
+}
+
+// lockstepPair: c calls a method of a two-matrix struct that applies the Matrix method of the
+// same name to both members with its own parameters in order; returns the two matrices the
+// receiver was built from.
+func lockstepPair(c *ssa.Call) (ssa.Value, ssa.Value, bool) {
+	g := c.Call.StaticCallee()
+	if g == nil || len(g.Blocks) == 0 || len(g.Params) < 1 {
+		return nil, nil, false
+	}
+	// the method body: exactly two calls of the same-named Matrix method on fields of the receiver
+	var fields []int
+	for _, ic := range callInstrs(g) {
+		f := ic.Common().StaticCallee()
+		if f == nil || f.Name() != g.Name() || f == g {
+			return nil, nil, false
+		}
+		args := ic.Common().Args
+		if len(args) != len(g.Params) {
+			return nil, nil, false
+		}
+		for k := 1; k < len(args); k++ {
+			if args[k] != ssa.Value(g.Params[k]) {
+				return nil, nil, false
+			}
+		}
+		// receiver: field of g's receiver parameter
+		rv := stripConv(args[0])
+		var fld = -1
+		switch x := rv.(type) {
+		case *ssa.Field:
+			if stripConv(x.X) == ssa.Value(g.Params[0]) {
+				fld = x.Field
+			}
+		case *ssa.UnOp:
+			if fa, ok := x.X.(*ssa.FieldAddr); ok {
+				if al, ok := fa.X.(*ssa.Alloc); ok {
+					for _, ref := range referrersOf(al) {
+						if st, ok := ref.(*ssa.Store); ok && st.Addr == ssa.Value(al) && st.Val == ssa.Value(g.Params[0]) {
+							fld = fa.Field
+						}
+					}
+				}
+			}
+		}
+		if fld < 0 {
+			return nil, nil, false
+		}
+		fields = append(fields, fld)
+	}
+	if len(fields) != 2 || fields[0] == fields[1] {
+		return nil, nil, false
+	}
+	// the receiver value at the call: a local struct whose two fields were stored once each
+	rv := stripConv(c.Call.Args[0])
+	ld, ok := rv.(*ssa.UnOp)
+	if !ok {
+		return nil, nil, false
+	}
+	al, ok := ld.X.(*ssa.Alloc)
+	if !ok {
+		return nil, nil, false
+	}
+	vals := map[int]ssa.Value{}
+	for _, ref := range referrersOf(al) {
+		switch x := ref.(type) {
+		case *ssa.FieldAddr:
+			for _, r2 := range referrersOf(x) {
+				if st, ok := r2.(*ssa.Store); ok && st.Addr == ssa.Value(x) {
+					if _, dup := vals[x.Field]; dup {
+						return nil, nil, false
+					}
+					vals[x.Field] = matrixRoot(st.Val)
+				}
+			}
+		case *ssa.Store:
+			if x.Addr == ssa.Value(al) {
+				return nil, nil, false
+			}
+		}
+	}
+	a, okA := vals[fields[0]]
+	b, okB := vals[fields[1]]
+	if !okA || !okB {
+		return nil, nil, false
+	}
+	return a, b, true
 }
